@@ -339,14 +339,14 @@ class LoadTracer(PagingTracer):
                                         loops = min((state[0] - registers[25]) // acc.loop_time + 1, 255 - counter)
                                     else:
                                         # DEC r
-                                        loops = min((state[0] - registers[25]) // acc.loop_time + 1, counter - 1)
+                                        loops = min((state[0] - registers[25]) // acc.loop_time + 1, (counter - 1) % 256)
                                     if loops:
                                         if acc.inc:
                                             # INC r
                                             registers[acc.counter], registers[1] = INC0[counter + loops - 1]
                                         else:
                                             # DEC r
-                                            registers[acc.counter], registers[1] = DEC0[counter - loops + 1]
+                                            registers[acc.counter], registers[1] = DEC0[(counter - loops + 1) % 256]
                                         r = registers[15]
                                         registers[15] = (r & 0x80) + ((r + acc.loop_r_inc * loops) % 0x80)
                                         registers[25] += acc.loop_time * loops
